@@ -64,6 +64,9 @@ structure Req where
   tag : String := "anon"
   iver : String := ""
   lvl : String := ""
+  /-- `notifications/cancelled` only: its `requestId` member is present and is neither null, a string nor
+  a number (the one member the cancellation preempter decodes since the F33 repair) -/
+  cancelIdBad : Bool := false
   deriving DecidableEq, Repr
 
 /-- `ServerSessionState.InitializeParams`, as far as observable: who set it and with which version. -/
@@ -202,11 +205,14 @@ def checkAndDecode (t : List (Method × Flags)) (r : Req) : Except Int Method :=
         .error (if f.customDecode then initializeNilParams else decodeNilParams)
       else .ok m
 
-/-- `canceller.Preempt` (repaired behaviour: only notifications are inspected): a cancelled
-notification whose params do not decode is dropped by `processResult` without reaching the handler. -/
+/-- `canceller.Preempt` (repaired behaviour: only notifications are inspected, F17; only the `requestId`
+member is decoded, from its raw token, F33): a cancelled notification whose params are not an object, or
+whose `requestId` is not an id, is dropped by `processResult` without reaching `handle`. Params that are
+undecodable for another reason (e.g. a non-string `reason`) pass the preempter and are refused later, by
+`unmarshalParams` — after the per-request metadata was validated and, possibly, adopted. -/
 def preemptDrops (r : Req) : Bool :=
   r.method == some .notifications_cancelled && !r.hasId &&
-    (r.params == .absent || r.params == .wrongType || r.params == .objUndecodable)
+    (r.params == .absent || r.params == .wrongType || (r.params == .objUndecodable && r.cancelIdBad))
 
 /-- Feature methods whose outcome on well-formed params is a success in the harness configuration. -/
 def featureRes (r : Req) : HRes :=
